@@ -328,6 +328,82 @@ fn run_serial_many(mode: Mode, total: u64) -> (String, String, String, String) {
     )
 }
 
+/// sparse traffic: a signal callback that lasts 150 ms (three sampling periods of the dispatch threads, so
+/// the network thread's poll times out, without events, while the callback runs) and, in the middle of it,
+/// a single datagram — or a frame arriving in two halves 10 ms apart.  The network event must wait.
+fn run_serial_sparse(mode: Mode) -> (String, String, String, String) {
+    let (handler, listener) = node::split::<u64>();
+    let (_l1, a_tcp) = handler.network().listen(Transport::FramedTcp, "127.0.0.1:0").unwrap();
+    let (_l2, a_udp) = handler.network().listen(Transport::Udp, "127.0.0.1:0").unwrap();
+    let inside = Arc::new(AtomicBool::new(false));
+    let in_signal = Arc::new(AtomicBool::new(false));
+    let overlaps = Arc::new(AtomicUsize::new(0));
+    let nets = Arc::new(AtomicU64::new(0));
+    let sigs = Arc::new(AtomicU64::new(0));
+    let (i2, s2, o2, n2, g2) = (inside.clone(), in_signal.clone(), overlaps.clone(), nets.clone(), sigs.clone());
+    let cb = move |e: Ev| {
+        if i2.swap(true, Ordering::SeqCst) {
+            o2.fetch_add(1, Ordering::SeqCst);
+        }
+        if matches!(e, Ev::Signal(_)) {
+            g2.fetch_add(1, Ordering::SeqCst);
+            s2.store(true, Ordering::SeqCst);
+            std::thread::sleep(Duration::from_millis(150));
+            s2.store(false, Ordering::SeqCst);
+        }
+        else {
+            if matches!(e, Ev::Message(..)) {
+                n2.fetch_add(1, Ordering::SeqCst);
+            }
+            std::thread::sleep(Duration::from_millis(5));
+        }
+        i2.store(false, Ordering::SeqCst);
+    };
+    let running = start(mode, &handler, listener, cb);
+    let udp = UdpSocket::bind("127.0.0.1:0").unwrap();
+    let mut tcp = TcpStream::connect(a_tcp).unwrap();
+    tcp.set_nodelay(true).ok();
+    std::thread::sleep(Duration::from_millis(120));
+    let wait_signal = |flag: &AtomicBool| {
+        let t = Instant::now();
+        while !flag.load(Ordering::SeqCst) && t.elapsed() < Duration::from_secs(2) {
+            std::thread::sleep(Duration::from_millis(1));
+        }
+    };
+    let mut sent = 0u64;
+    for r in 0..3u64 {
+        // a datagram 80 ms into the signal callback
+        handler.signals().send(r);
+        wait_signal(&in_signal);
+        std::thread::sleep(Duration::from_millis(80));
+        let _ = udp.send_to(&[r as u8; 8], a_udp);
+        sent += 1;
+        std::thread::sleep(Duration::from_millis(140));
+        // a frame in two halves, 60 and 70 ms into the next signal callback
+        handler.signals().send(100 + r);
+        wait_signal(&in_signal);
+        std::thread::sleep(Duration::from_millis(60));
+        let frame = framed(&[r as u8; 40]);
+        let _ = tcp.write_all(&frame[..20]);
+        std::thread::sleep(Duration::from_millis(10));
+        let _ = tcp.write_all(&frame[20..]);
+        sent += 1;
+        std::thread::sleep(Duration::from_millis(150));
+    }
+    std::thread::sleep(Duration::from_millis(100));
+    handler.stop();
+    let returned = finish(running, Duration::from_secs(3));
+    let ov = overlaps.load(Ordering::SeqCst);
+    let (n, g) = (nets.load(Ordering::SeqCst), sigs.load(Ordering::SeqCst));
+    let ok = ov == 0 && returned.is_some() && n == sent && g == 6;
+    (
+        format!("node serialsparse {}", mode.name()),
+        format!("overlaps={}", ov),
+        if ok { "ok".into() } else { format!("FAIL overlaps={} network messages {} of {} signals {} of 6 returned={:?}", ov, n, sent, g, returned) },
+        format!("serial,sparse,{},both-threads", mode.name()),
+    )
+}
+
 // -------------------------------------------------------------------------------------------------
 // C09
 
@@ -832,6 +908,8 @@ fn main() {
                     emit(&mut out, &c, &i, &o, &t);
                     let (c, i, o, t) = run_serial_many(m, 140_000);
                     emit(&mut out, &c, &i, &o, &t);
+                    let (c, i, o, t) = run_serial_sparse(m);
+                    emit(&mut out, &c, &i, &o, &t);
                 }
             }
         }
@@ -886,6 +964,7 @@ fn main() {
                 let ws: Vec<&str> = line.split(' ').collect();
                 let row = match ws.as_slice() {
                     ["node", "serialmany", m, n] => run_serial_many(parse_mode(m), n.parse().unwrap_or(1000)),
+                    ["node", "serialsparse", m] => run_serial_sparse(parse_mode(m)),
                     ["node", "serialc", m] => run_serial_cached(parse_mode(m)),
                     ["node", "serial", m, d] => run_serial(parse_mode(m), d.parse().unwrap_or(0)),
                     ["node", "stop", m, sc, p] => run_stop(parse_mode(m), sc, p.parse().unwrap_or(0)),
